@@ -70,7 +70,26 @@ for case in payload.get("pipe_cases", []):
                 combination_number_upper_bound=cap, reference_model_JSON="", mi_stratified_sampling_ratio=1.0)
             df = pd.DataFrame({c: [str(v) for v in rs.randint(0, 3, size=case["nrows"])] for c in cols})
             cands = cr.get_combinations_from_columns(df.columns, types.SimpleNamespace(**vars(args)))
-            res = cr.mixed_rank_graph(df, args, FakePool(), FakeBar())
+            if case.get("reference"):
+                # prior heuristic with a reference model: pairs touching a reference-model feature are not candidates
+                # (the filter of mixed_rank_graph, replicated here to know what the sampler is entitled to pick from);
+                # the scorer is replaced by a constant: C07 is about WHICH pairs are evaluated, not their scores
+                import json as _json, os as _os
+                rp = _os.path.join(_os.getcwd(), "c07_ref_%d.json" % _os.getpid())
+                with open(rp, "w") as f:
+                    _json.dump({"desc": {"features": case["reference"]}}, f)
+                args.reference_model_JSON = rp
+                ref = [(' AND ').join(tuple(sorted(item.split(',')))) for item in case["reference"]]
+                cands = [c for c in cands if c[0] not in ref and c[1] not in ref]
+                orig_scorer = cr.get_importances_estimate_pairwise
+                cr.get_importances_estimate_pairwise = lambda comb, refs, a, tmp_df=None: (comb[0], comb[1], 0.5)
+                try:
+                    res = cr.mixed_rank_graph(df, args, FakePool(), FakeBar())
+                finally:
+                    cr.get_importances_estimate_pairwise = orig_scorer
+                    _os.remove(rp)
+            else:
+                res = cr.mixed_rank_graph(df, args, FakePool(), FakeBar())
             rows = [[a, b, float(s)] for a, b, s in res.triplet_scores]
             counter = [[list(k), int(v)] for k, v in cr.GLOBAL_PRIOR_COMB_COUNTS.items()]
             obs.append({"cands": [list(c) for c in cands], "rows": rows, "counter": counter,
